@@ -59,25 +59,25 @@ class YieldInjector:
         self.last = None  # (thread id, file:line)
         self.active = False
         self.fn_sites = set()
+        self.every = max(2, int(round(1.0 / p)))
+        self.phase = self.rnd.randrange(self.every)
 
     def _line(self, code, line):
+        """LINE callback.  Kept as cheap as possible: no lock (the counters are evidence, a lost update only makes them a lower
+        bound - the verdict never depends on them) and a deterministic 'every k-th event' yield derived from the seeded p."""
         fn = code.co_filename
         if not fn.startswith(self.prefix):
             return mon.DISABLE
         tid = threading.get_ident()
-        site = (os.path.basename(fn), line)
-        with self.lock:
-            self.events += 1
-            last = self.last
-            if last is not None and last[0] != tid:
-                self.switches += 1
-                if len(self.sites) < 200000:
-                    self.sites.add((last[1], site))
-            self.last = (tid, site)
-            inject = self.rnd.random() < self.p
-            if inject:
-                self.injected += 1
-        if inject:
+        last = self.last
+        if last is not None and last[0] != tid:
+            self.switches += 1
+            if len(self.sites) < 50000:
+                self.sites.add(((os.path.basename(last[1]), last[2]), (os.path.basename(fn), line)))
+        self.last = (tid, fn, line)
+        self.events += 1
+        if self.events % self.every == self.phase:
+            self.injected += 1
             time.sleep(0)
 
     def start(self):
